@@ -476,42 +476,34 @@ func (c *Ctx) skipReadRule(rule string) {
 		bad := false
 		for _, p := range paths {
 			var skip *pw.Event
-			storageBefore := false
 			for _, ev := range p.Events {
 				if ev.Kind == pw.EvCall && ev.Role == "Repo:SkipRead" && len(ev.Args) == 1 && ev.Args[0] == ctx {
 					skip = ev
 					break
 				}
-				if touchesStorage(ev) {
-					storageBefore = true
-				}
 			}
+			notFound := len(p.Ret) == 2 && isConstNamed(p.Ret[1], "ErrNotFound")
 			if skip == nil {
-				r.Bad(rule, name, "no-skipread-test", c.Pos(p.RetPos), "path through Read never tests SkipRead(ctx)", shortTrace(p))
-				bad = true
-				break
-			}
-			if storageBefore {
-				r.Bad(rule, name, "storage-before-skipread", c.Pos(skip.Pos), "storage touched before SkipRead(ctx) is tested", shortTrace(p))
-				bad = true
-				break
-			}
-			if t, known := p.Truth(skip.Results[0]); known && t {
-				nSkip++
-				ok := len(p.Ret) == 2 && p.Ret[1].Kind == pw.KConst && p.Ret[1].Obj != nil && p.Ret[1].Obj.Name() == "ErrNotFound"
-				for _, ev := range p.Events {
-					if touchesStorage(ev) || ev.Kind == pw.EvCall && (len(ev.Role) > 6 && ev.Role[:7] == "Metric:") {
-						ok = false
-					}
-				}
-				if !ok {
-					r.Bad(rule, name, "skipread-not-honoured", c.Pos(p.RetPos), "with SkipRead(ctx) the Read must return ErrNotFound without touching storage or metrics", shortTrace(p))
+				if !notFound {
+					r.Bad(rule, name, "no-skipread-test", c.Pos(p.RetPos), "Read returns a value or an expiry error on a path that never tests SkipRead(ctx)", shortTrace(p))
 					bad = true
 					break
 				}
-			} else if !known {
-				r.Bad(rule, name, "skipread-untested", c.Pos(skip.Pos), "result of SkipRead(ctx) is not branched on", shortTrace(p))
+				continue
+			}
+			t, known := p.Truth(skip.Results[0])
+			switch {
+			case known && t:
+				nSkip++
+				if !notFound {
+					r.Bad(rule, name, "skipread-not-honoured", c.Pos(p.RetPos), "with SkipRead(ctx) the Read must return ErrNotFound", shortTrace(p))
+					bad = true
+				}
+			case !known && !notFound:
+				r.Bad(rule, name, "skipread-untested", c.Pos(skip.Pos), "result of SkipRead(ctx) is not branched on before a value is returned", shortTrace(p))
 				bad = true
+			}
+			if bad {
 				break
 			}
 		}
